@@ -24,14 +24,16 @@ def guardName : Guard → String
   | .perExecution => "perExecution" | .constructionOnly => "constructionOnly" | .wrapperPrebuilt => "wrapperPrebuilt"
   | .pooledStringMutex => "pooledStringMutex" | .isMutex => "isMutex" | .initTerminate => "initTerminate"
   | .installOnly => "installOnly" | .neverWritten => "neverWritten" | .castNoWrite => "castNoWrite"
-  | .ownerOnly => "ownerOnly" | .lazyListHead => "lazyListHead"
+  | .ownerOnly => "ownerOnly" | .lazyListHead => "lazyListHead" | .headForced => "headForced"
+  | .noConstLookup => "noConstLookup" | .emptyChecked => "emptyChecked" | .noConstCaller => "noConstCaller"
+  | .listConstNoAlloc => "listConstNoAlloc"
 
 def effectName : Effect → String
   | .none => "none" | .privateWrite => "privateWrite" | .syncWrite => "syncWrite" | .sharedWrite => "sharedWrite"
 
 def kindOfName : String → Option Kind
   | "mutableMember" => some .mutableMember | "constCast" => some .constCast | "constPathCall" => some .constPathCall
-  | "localStatic" => some .localStatic | "globalVar" => some .globalVar | _ => none
+  | "localStatic" => some .localStatic | "lazyContainer" => some .lazyContainer | "globalVar" => some .globalVar | _ => none
 
 def demo : Machine (List Nat) Nat Nat where
   step := fun s p => (s, p + 1, [s.getD p 0 + p])
@@ -44,7 +46,9 @@ def step (_ : Unit) : List String → Unit × String
   | ["selftest"] =>
     match C07_Share.table.find? (fun e => encodeKey e.keyText != e.key) with
     | some e => ((), "selftest bad " ++ e.keyText)
-    | none => ((), s!"selftest ok {C07_Share.table.length} {C07_Share.reachable.length} unlisted={unlisted.length}")
+    | none =>
+      let bad := C07_Share.table.filter (fun e => !guardEvidence e)
+      ((), s!"selftest ok {C07_Share.table.length} {C07_Share.reachable.length} unlisted={unlisted.length + bad.length}")
   | ["predict", mode] =>
     match Mode.ofName mode with
     | none => ((), "bad")
